@@ -111,7 +111,71 @@ func remove(a []int, x int) []int {
 
 // genCase builds a mostly-valid chain: the downward part forward (inputs drawn from what is
 // available), the upward part backward (receivers drawn from what is returned below).
+// genTrialScenario: the elimination trials and their recheck lists.  A provider that the trials remove (Shun'd, or a
+// farther duplicate) feeds a middle provider whose other consumer is an auto-desired / Desired provider that was left
+// out before the trials began (it also takes a type nobody provides) or during them (Shun'd as well); a farther
+// provider of the middle provider's type keeps the chain valid.  Whoever is left out must have no say in the trials.
+func genTrialScenario(rng *rand.Rand, n int, seed int64) *CaseDesc {
+	c := &CaseDesc{N: n, Seed: seed, Shape: "flat"}
+	perm := rng.Perm(5)
+	T, S, M, X := perm[0], perm[1], perm[2], perm[3]
+	add := func(p *ProvDesc) *ProvDesc {
+		p.Idx = len(c.Provs)
+		if p.Kind == "" {
+			p.Kind = "inj"
+		}
+		c.Provs = append(c.Provs, p)
+		return p
+	}
+	filler := func() {
+		for chance(rng, 0.3) {
+			switch rng.Intn(3) {
+			case 0:
+				add(&ProvDesc{Out: []int{X}})
+			case 1:
+				add(&ProvDesc{In: []int{T}, Out: []int{X}, Shun: chance(rng, 0.3)})
+			default:
+				add(&ProvDesc{Kind: "wrap", IIn: nil, Calls: 1, Pass: true})
+			}
+		}
+	}
+	// the farther source of T
+	z0 := add(&ProvDesc{Out: []int{T}})
+	z0.Required = chance(rng, 0.5)
+	filler()
+	// the provider the trials remove, and the middle provider fed by it
+	y := add(&ProvDesc{Out: []int{S}, Shun: chance(rng, 0.8)})
+	if chance(rng, 0.3) {
+		y.Out = append(y.Out, X)
+	}
+	filler()
+	add(&ProvDesc{In: []int{S}, Out: []int{T}})
+	filler()
+	// the consumer that is left out
+	d := add(&ProvDesc{In: []int{T}})
+	switch rng.Intn(4) {
+	case 0: // auto-desired, cannot be included
+		d.In = append(d.In, M)
+	case 1: // Desired, cannot be included
+		d.In, d.Out, d.Desired = append(d.In, M), []int{X}, true
+	case 2: // auto-desired and Shun'd: the trials remove it
+		d.Shun = true
+	default: // Desired and Shun'd, with an output nobody needs
+		d.Out, d.Desired, d.Shun = []int{X}, true, true
+	}
+	if chance(rng, 0.5) {
+		d.In[0], d.In[len(d.In)-1] = d.In[len(d.In)-1], d.In[0]
+	}
+	filler()
+	add(&ProvDesc{In: []int{T}})
+	c.Ops = []Op{{Kind: "invoke"}, {Kind: "invoke"}}
+	return c
+}
+
 func genCase(rng *rand.Rand, n int, seed int64, pf Profile) *CaseDesc {
+	if pf.PShun > 0 && pf.PReorder == 0 && uint64(seed)%29 == 7 {
+		return genTrialScenario(rng, n, seed)
+	}
 	c := &CaseDesc{N: n, Seed: seed, Shape: "flat"}
 	plain := []int{0, 1, 2, 3, 4}
 	nT := 3 + rng.Intn(3)
